@@ -1,0 +1,26 @@
+// SPDX-License-Identifier: Apache-2.0 or BSD-3-Clause
+
+//! Verification hooks, compiled only with the `verif-hooks` feature.
+//!
+//! A hold point reports `(point, ctx)` to the registered hook and does nothing when no hook is
+//! registered. The hook may block the calling thread to steer interleavings.
+
+use std::sync::{Arc, RwLock};
+
+/// Type of the hook callback.
+pub type Hook = dyn Fn(&'static str, u64) + Send + Sync;
+
+static HOOK: RwLock<Option<Arc<Hook>>> = RwLock::new(None);
+
+/// Register (or clear) the process-wide hook.
+pub fn set_hook(hook: Option<Arc<Hook>>) {
+    *HOOK.write().unwrap() = hook;
+}
+
+/// Report a hold point to the registered hook, if any.
+pub fn hold(point: &'static str, ctx: u64) {
+    let hook = HOOK.read().unwrap().clone();
+    if let Some(hook) = hook {
+        hook(point, ctx);
+    }
+}
